@@ -6,7 +6,8 @@ First token selects the model. Run with `lake env lean --run Driver.lean`.
 open Odf
 
 structure DState where
-  dummy : Nat := 0
+  tbl : Table.Tbl := Table.parse [] []
+  row : Table.RowObj := Table.rowObj []
 
 def step (st : DState) (line : String) : DState × String :=
   match (line.trimAscii.toString.splitOn " ").filter (· ≠ "") with
@@ -14,6 +15,9 @@ def step (st : DState) (line : String) : DState × String :=
   | "addr" :: rest => (st, Drv.Addr.handle rest)
   | "codec" :: rest => (st, Drv.Codec.handle rest)
   | "ws" :: rest => (st, Drv.Ws.handle rest)
+  | "name" :: rest => (st, Drv.Names.handle rest)
+  | "row" :: rest => let (r, o) := Drv.Row.handle st.row rest; ({ st with row := r }, o)
+  | "tbl" :: rest => let (t, o) := Drv.Table.handle st.tbl rest; ({ st with tbl := t }, o)
   | _ => (st, "bad-op")
 
 partial def loop (h : IO.FS.Stream) (out : IO.FS.Stream) (st : DState) : IO Unit := do
